@@ -43,6 +43,20 @@ def victims(tier):
                      ["Debug", "Clone", "PartialEq", "AsRef", "Deref", "Borrow", "Into", "TryFrom", "IntoIterator"], True, generics="<X: Ord>", inst="<i32>", elem="i32"))
     vs.append(Victim("generic-unchecked", "Vec<X>", ["validate(predicate = |v| !v.is_empty())"], "vec![2, 1]", "vec![]", ["Debug", "Deref"], True, generics="<X: Ord>", inst="<i32>",
                      new_unchecked=True, elem="i32"))
+    # flag combinations: const_fn x new_unchecked (qualifier order / omission slips), per family
+    vs.append(Victim("int-unchecked-const", "i32", ["validate(greater = 0)", "const_fn"], "5", "-5", ["Debug", "Deref"], True, new_unchecked=True))
+    vs.append(Victim("float-unchecked-const", "f64", ["validate(finite)", "const_fn"], "5.0", "f64::NAN", ["Debug", "Deref", "AsRef"], True, new_unchecked=True))
+    vs.append(Victim("int-const", "i32", ["validate(less = 100)", "const_fn"], "5", "500", ["Debug", "Deref", "AsRef", "Borrow"], True))
+    vs.append(Victim("string-unchecked", "String", ["sanitize(trim)", "validate(not_empty)"], '"abc"', 'String::new()', ["Debug", "Deref", "AsRef", "Borrow"], True, new_unchecked=True))
+    # sanitize-only (no validators) collection / string / float newtypes with every view trait: sanitizers are guards too
+    vs.append(Victim("vec-plain-all", "Vec<i32>", ["sanitize(with = |mut v| { v.sort(); v.dedup(); v })", "default = vec![]"], "vec![2, 1]", "vec![3, 3, 1]",
+                     ["Debug", "Clone", "PartialEq", "Eq", "Hash", "AsRef", "Deref", "Borrow", "Into", "From", "IntoIterator", "Default"], False, elem="i32"))
+    vs.append(Victim("generic-vec-plain", "Vec<X>", ["sanitize(with = |mut v| { v.sort(); v })"], "vec![2, 1]", "vec![3, 1]",
+                     ["Debug", "Clone", "PartialEq", "AsRef", "Deref", "Borrow", "Into", "From", "IntoIterator"], False, generics="<X: Ord>", inst="<i32>", elem="i32"))
+    vs.append(Victim("string-plain-all", "String", ["sanitize(trim, uppercase)", "default = \"X\""], '"abc"', 'String::from(" x ")',
+                     ["Debug", "Clone", "PartialEq", "Eq", "PartialOrd", "Ord", "Hash", "AsRef", "Deref", "Borrow", "Into", "From", "Display", "FromStr", "Default"], False))
+    vs.append(Victim("float-plain-all", "f64", ["sanitize(with = |x| x.clamp(0.0, 1.0))"], "0.5", "7.0",
+                     ["Debug", "Clone", "Copy", "PartialEq", "PartialOrd", "AsRef", "Deref", "Borrow", "Into", "From", "Display", "FromStr"], False))
     return vs
 
 
